@@ -12,7 +12,8 @@ Next == /\ l <= Len(Recs) /\ l' = l + 1
         /\ LET r == Recs[l]
                exp == DfResult(DefragSpec(r.in, r.arg), "none")
                alt == DfResult(DefragAsBuilt(r.in, r.arg), DfErrAsBuilt(r.in, r.arg))
-           IN IF ~DfInDomain(r.in, r.arg) THEN outside' = outside + 1 /\ UNCHANGED <<bad, known>>
+           IN IF r.panic # "" THEN bad' = Append(bad, [line |-> l, exp |-> exp, alt |-> alt]) /\ UNCHANGED <<known, outside>>
+              ELSE IF ~DfInDomain(r.in, r.arg) THEN outside' = outside + 1 /\ UNCHANGED <<bad, known>>
               ELSE IF r.out = exp THEN UNCHANGED <<bad, known, outside>>
               ELSE IF r.out = alt THEN known' = known + 1 /\ UNCHANGED <<bad, outside>>
               ELSE bad' = Append(bad, [line |-> l, exp |-> exp, alt |-> alt]) /\ UNCHANGED <<known, outside>>
